@@ -22,6 +22,7 @@ sys.path.insert(0, os.path.dirname(HERE))
 
 from selftest.mutate import Stale, overlay_for  # noqa: E402
 from selftest.transforms import TRANSFORMS, overlay  # noqa: E402
+from selftest import seeds as _seeds  # noqa: E402
 
 
 def load_corpus(prop: str) -> list[dict]:
@@ -33,6 +34,20 @@ def load_corpus(prop: str) -> list[dict]:
                 e = json.loads(ln)
                 if e["prop"] == prop:
                     out.append(e)
+    return out
+
+
+def seeds_expected(prop: str) -> list[dict]:
+    """Seeded changes that this property's check reported when the catch table (seeded/RESULTS.json) was last generated: they must still be reported."""
+    path = os.path.join(_seeds.SEEDED, "RESULTS.json")
+    if not os.path.exists(path):
+        return []
+    res = {r["seed"]: r for r in json.load(open(path))}
+    out = []
+    for sd in _seeds.seeds_for():
+        r = res.get(sd["id"])
+        if r and prop in (r.get("caught_by") or {}):
+            out.append(dict(sd, expect_here=True))
     return out
 
 
@@ -54,6 +69,14 @@ def _one(job):
             ov = overlay(root, e)
             v, d = _verdict(prop, root, ov)
             return dict(id=f"{prop}-t-{e}", kind="benign", what=f"whole-package transformation `{e}`", outcome=v, detail=d, ok=(v == "silent"))
+        if kind == "seed":
+            try:
+                ov = _seeds.overlay_of(e["dir"], root)
+            except _seeds.PatchStale as s:
+                return dict(id="seed-" + e["id"], kind="seed", what=f"seeded change {e['id']}: {str(e.get('title'))[:80]}", outcome="stale", detail=str(s)[:120], ok=None)
+            v, d = _verdict(prop, root, ov)
+            return dict(id="seed-" + e["id"], kind="seed", what=f"seeded change {e['id']}: {str(e.get('title'))[:80]}", outcome=v, detail=d,
+                        ok=(v in ("refuted", "flagged")) if e.get("expect_here") else None)
         try:
             ov = overlay_for(root, e["rel"], e["old"], e["new"], e.get("within"))
         except Stale as s:
@@ -72,6 +95,7 @@ def _one(job):
 def selftest(prop: str, root: str = "/repo", workers: int = 16) -> list[dict]:
     jobs = [("transform", prop, root, t) for t in TRANSFORMS]
     jobs += [("corpus", prop, root, e) for e in load_corpus(prop)]
+    jobs += [("seed", prop, root, e) for e in seeds_expected(prop)]
     with ProcessPoolExecutor(min(workers, max(1, len(jobs)))) as ex:
         return list(ex.map(_one, jobs))
 
@@ -80,7 +104,10 @@ def run_selftest(prop, rep, root):
     res = selftest(prop, root)
     kills = [r for r in res if r["kind"] == "kill"]
     ben = [r for r in res if r["kind"] == "benign"]
+    seeds = [r for r in res if r["kind"] == "seed"]
     summ = {
+        "seeded_changes": len(seeds), "seeded_reported": sum(1 for r in seeds if r["outcome"] in ("refuted", "flagged")),
+        "seeded_missed": [r["id"] for r in seeds if r["outcome"] == "silent"],
         "kill_mutants": len(kills), "killed_refuted": sum(1 for r in kills if r["outcome"] == "refuted"),
         "killed_flagged": sum(1 for r in kills if r["outcome"] == "flagged"), "survived": [r["id"] for r in kills if r["outcome"] == "silent"],
         "stale": [r["id"] for r in res if r["outcome"] == "stale"],
@@ -90,7 +117,8 @@ def run_selftest(prop, rep, root):
     rep.stats["selftest"] = summ
     rep.note(f"self-test on variants of the current tree: {summ['killed_refuted']}+{summ['killed_flagged']}/{len(kills) - len([r for r in kills if r['outcome'] == 'stale'])} "
              f"breaking edits reported (refuted+flagged), {summ['benign_silent']}/{len(ben) - len([r for r in ben if r['outcome'] == 'stale'])} "
-             f"behaviour-preserving variants silent, {len(summ['stale'])} stale")
+             f"behaviour-preserving variants silent, {summ['seeded_reported']}/{len(seeds)} seeded multi-line changes (sub-agents, suite-passing) reported, "
+             f"{len(summ['stale'])} stale")
     for r in res:
         if r["ok"] is False:
             print(f"SELFTEST-MISS property={prop} {r['id']} ({r['kind']}): {r['what']} -> {r['outcome']} {r['detail'][:160]}")
